@@ -68,6 +68,14 @@ func (c *BytecodeCompiler) InitGlobalEnv() Compiler {
 
 func (c *BytecodeCompiler) InitMainCompiler() {}
 
+// Mark this compiler (and the compilers that share its global data)
+// as compiling code incrementally, eg. in the REPL.
+// Method calls are then always dispatched dynamically, because a later input
+// may redefine the called method or subclass the receiver's class.
+func (c *BytecodeCompiler) SetIncremental(val bool) {
+	c.globalData.incremental = val
+}
+
 // Enable or disable abort checks in this compiler and in every
 // compiler that shares its global data (nested methods, closures, namespaces).
 func (c *BytecodeCompiler) setAdditionalAbortChecks(val bool) {
@@ -260,6 +268,9 @@ type bytecodeGlobalData struct {
 	// whether abort checks should be compiled, shared with every compiler
 	// created for nested units (methods, closures, namespaces etc)
 	additionalAbortChecks bool
+	// set when code is compiled incrementally (REPL): methods can be redefined
+	// and classes can get children in later inputs, so calls must not be bound statically
+	incremental bool
 }
 
 func newBytecodeGlobalData() *bytecodeGlobalData {
@@ -9228,7 +9239,7 @@ func (c *BytecodeCompiler) singletonName(namespaceName string) (string, bool) {
 
 func (c *BytecodeCompiler) compileOptimisedCallMethod(receiverType types.Type, name value.Symbol, argCount int, loc *position.Location, tailCall bool) {
 	receiverNamespace, receiverIsNamespace := receiverType.(types.Namespace)
-	if !receiverIsNamespace {
+	if !receiverIsNamespace || c.globalData.incremental {
 		c.emitCallMethod(
 			vm.NewCallSiteInfo(name, argCount),
 			loc,
